@@ -59,3 +59,28 @@ T('m20_twin_named_temporary', ['C20'],
   (AT, _F18, "            body = content.encode('utf-8', 'backslashreplace')\n"),
   (AT, "            return Response(content, status=status, mimetype=mimetype)",
        "            return Response(body, status=status, mimetype=mimetype)"))
+
+# ---- R08.h the body of an error response is produced by a total encoding (F16)
+_F16_INIT = "        body = self._encode(self.to_text())\n        super(HTTPException, self).__init__(response=body,\n"
+_F16_ADAPT = "        self.data = self._encode(_method())\n"
+_F16_ENC = "        return text.encode(self.charset, 'backslashreplace')\n"
+B('m08_error_text_handed_over_as_str', ['C08'], 'R08.h',
+  (E, _F16_INIT, "        super(HTTPException, self).__init__(response=self.to_text(),\n"))
+B('m08_adapted_text_handed_over_as_str', ['C08'], 'R08.h', (E, _F16_ADAPT, "        self.data = _method()\n"))
+B('m08_error_text_encoded_strictly', ['C08'], 'R08.h', (E, _F16_ENC, "        return text.encode(self.charset)\n"))
+B('m08_error_text_strict_handler_named', ['C08'], 'R08.h', (E, _F16_ENC, "        return text.encode(self.charset, errors='strict')\n"))
+B('m08_surrogateescape_is_not_total', ['C08'], 'R08.h', (E, _F16_ENC, "        return text.encode(self.charset, 'surrogateescape')\n"))
+B('m08_set_data_with_text', ['C08'], 'R08.h', (E, _F16_ADAPT, "        self.set_data(_method())\n"))
+B('m08_encoding_skipped_for_html', ['C08'], 'R08.h',
+  (E, _F16_ADAPT, "        body = _method()\n        if fmt_name != 'html':\n            body = self._encode(body)\n        self.data = body\n"))
+T('m08_twin_replace_handler', ['C08'], (E, _F16_ENC, "        return text.encode(self.charset, errors='replace')\n"))
+T('m08_twin_inline_encode', ['C08'],
+  (E, _F16_ADAPT, "        self.data = _method().encode(self.charset, 'backslashreplace')\n"))
+T('m08_twin_set_data_encoded', ['C08'], (E, _F16_ADAPT, "        self.set_data(self._encode(_method()))\n"))
+T('m08_twin_named_temporaries', ['C08'],
+  (E, _F16_ADAPT, "        serialized = _method()\n        encoded = self._encode(serialized)\n        self.data = encoded\n"))
+T('m08_twin_module_level_encoder', ['C08'],
+  (E, "    def _encode(self, text):\n", "    def _encode_unused(self, text):\n"),
+  (E, "class HTTPException(BaseResponse, Exception):", "def _to_body(text, charset='utf-8'):\n    if isinstance(text, bytes):\n        return text\n    return text.encode(charset, 'xmlcharrefreplace')\n\n\nclass HTTPException(BaseResponse, Exception):"),
+  (E, "body = self._encode(self.to_text())", "body = _to_body(self.to_text())"),
+  (E, _F16_ADAPT, "        self.data = _to_body(_method(), self.charset)\n"))
